@@ -5,6 +5,8 @@ import (
 	"context"
 	"fmt"
 	"os"
+	"path/filepath"
+	"sort"
 	"time"
 
 	"lfsverif/internal/common"
@@ -92,6 +94,95 @@ func exportDuringCommit(c *common.Ctx, r *common.Rand) error {
 		} else if eq, why := im.Equal(want); !eq {
 			c.Violate("C16:export-during-commit:mixture", fmt.Sprintf("an export during which a WAL transaction committed reports %s and is not the committed image of that position: %s", pos.String(), why), rep)
 			return nil
+		}
+	}
+	return nil
+}
+
+// importWaitsForWriter: POST /import arrives while a connection is in the middle of a write transaction (it has written
+// its pages and is about to commit). The import waits for the write lock; the transaction commits; the import follows.
+// Both are transactions: the position advances by two, an export returns the imported image, the log is one chain.
+func importWaitsForWriter(c *common.Ctx, r *common.Rand, wal bool) error {
+	dir, err := os.MkdirTemp(c.OutDir, "c16w-")
+	if err != nil {
+		return err
+	}
+	defer os.RemoveAll(dir)
+	n, err := lfs.Open(dir, true)
+	if err != nil {
+		return err
+	}
+	defer n.Close()
+	const ps = 512
+	h := hist.NewOn(c, r.Fork(), hist.Config{PageSize: ps, AllowWAL: true}, n.Store, n.Exits, "db", nil, 0, false)
+	for _, st := range []hist.Step{
+		{Op: "rtx", Writes: map[uint32]uint64{1: 1, 2: 2, 3: 3, 4: 4}, NewSize: 4, ToWAL: wal},
+		{Op: map[bool]string{true: "wtx", false: "rtx"}[wal], Writes: map[uint32]uint64{2: 12}, Frames: [][2]uint64{{2, 12}}, NewSize: 4},
+	} {
+		if ob := h.Exec(st); ob.Err != "" || ob.Panic != "" {
+			return fmt.Errorf("setup %s: %s%s", st.Op, ob.Err, ob.Panic)
+		}
+	}
+	db := n.Store.DB("db")
+	before := db.Pos()
+	img := &lfs.Image{PageSize: ps}
+	for pg := uint32(1); pg <= 3; pg++ {
+		img.Pages = append(img.Pages, lfs.MakePage(ps, pg, 777000+uint64(pg), 3, false))
+	}
+	var raw []byte
+	for _, p := range img.Pages {
+		raw = append(raw, p...)
+	}
+	impDone := make(chan error, 1)
+	h.Pager.BeforeCommit = func() {
+		go func() { impDone <- db.Import(context.Background(), bytes.NewReader(raw)) }()
+		time.Sleep(150 * time.Millisecond)
+	}
+	var ob hist.Obs
+	if wal {
+		ob = h.Exec(hist.Step{Op: "wtx", Frames: [][2]uint64{{3, 4343}}, NewSize: 4})
+	} else {
+		ob = h.Exec(hist.Step{Op: "rtx", Writes: map[uint32]uint64{3: 4343}, NewSize: 4})
+	}
+	h.Pager.BeforeCommit = nil
+	var ierr error
+	select {
+	case ierr = <-impDone:
+	case <-time.After(10 * time.Second):
+		ierr = fmt.Errorf("the import did not return within 10 s")
+	}
+	c.Evaluations++
+	c.Distinct(fmt.Sprintf("import-waits-for-writer:%v", wal))
+	rep := map[string]any{"kind": "import-waits-for-writer", "wal": wal, "commit_error": ob.Err, "import_error": fmt.Sprint(ierr)}
+	if len(n.Exits()) > 0 {
+		c.Violate("C16:import-waits:exit", fmt.Sprintf("the node called Exit(%v)", n.Exits()), rep)
+		return nil
+	}
+	if ob.Err != "" || ob.Panic != "" || ierr != nil {
+		c.Count("import_waits_for_writer_not_both", 1)
+		return nil
+	}
+	pos := db.Pos()
+	var buf bytes.Buffer
+	if _, err := db.Export(context.Background(), &buf); err != nil {
+		c.Violate("C16:import-waits:export", "export after the import fails: "+err.Error(), rep)
+		return nil
+	}
+	got := buf.Bytes()
+	if pos.TXID != before.TXID+2 {
+		c.Violate("C16:import-waits:position", fmt.Sprintf("a transaction committed while the import was waiting for the write lock, then the import ran and reported success: the position went from %s to %s; want transaction %d", before, pos, before.TXID+2), rep)
+		return nil
+	}
+	if !bytes.Equal(resetCounters(got), resetCounters(raw)) {
+		c.Violate("C16:import-waits:image", fmt.Sprintf("the import reported success; an export afterwards returns %d bytes that are not the imported image (%d bytes)", len(got), len(raw)), rep)
+		return nil
+	}
+	infos, _ := lfs.ListLTX(filepath.Join(n.Dir, "dbs", "db"))
+	sort.SliceStable(infos, func(i, j int) bool { return infos[i].Min < infos[j].Min })
+	for i := 1; i < len(infos); i++ {
+		if !infos[i].Valid || infos[i].Min != infos[i-1].Max+1 || infos[i].Pre != infos[i-1].Post {
+			c.Violate("C16:import-waits:chain", fmt.Sprintf("the log is not one chain: %s does not continue %s", infos[i].Name, infos[i-1].Name), rep)
+			break
 		}
 	}
 	return nil
